@@ -581,6 +581,6 @@ def selftest():
 def subchecks(tier, seed):
     quick = tier == "quick"
     return [
-        SubCheck("becke", body_becke, strategy=becke_strategy(tier), examples=4800 if quick else 150000, cases=pinned_becke(), shards=16),
+        SubCheck("becke", body_becke, strategy=becke_strategy(tier), examples=4800 if quick else 120000, cases=pinned_becke(), shards=16),
         SubCheck("hirshfeld", body_hirshfeld, strategy=hirshfeld_strategy(), examples=1600 if quick else 20000, shards=16),
     ]
